@@ -3,14 +3,24 @@
 /verif/seeded/*/meta.json, /verif/work/seeded_results.jsonl and the //verif:harness directives."""
 import json, glob, os, re, collections
 rows = []
+trials = {}
+for l in open('/verif/work/seeded_results.jsonl'):
+    r = json.loads(l)
+    trials.setdefault(re.sub(r'-retest\d*$', '', r['name']), []).append(r)
 for d in sorted(glob.glob('/verif/seeded/C*-[AB]') + glob.glob('/verif/seeded/R2C*-[AB]')):
     m = json.load(open(d + '/meta.json'))
     name = os.path.basename(d)
     det = m.get('detected_by', [])
-    checks = [r for r in m['ran'] if r.startswith('/verif/check')]
-    first_missed = bool(checks) and ('exit 0' in checks[0] or 'exit 2' in checks[0] or 'exit 143' in checks[0])
+    ts = trials.get(name, [])
+    first_caught = bool(ts) and any(x['exit'] == 1 for x in ts[0]['results'].values())
     d_txt = '; '.join(f"{x['property']}: {', '.join(sorted(set(x['labels']))[:3])}" for x in det) or '**not detected**'
-    status = 'caught' if det and not first_missed else ('missed at first, check strengthened' if det else 'not detected (see below)')
+    if det and first_caught:
+        own = name.replace('R2', '').split('-')[0]
+        status = 'caught' if any(x['property'] == own for x in det) else 'caught (by a sibling property\'s check)'
+    elif det:
+        status = 'missed at first, check strengthened'
+    else:
+        status = 'not detected (see below)'
     rows.append(f"| {name} | {m['needs_to_manifest']} | {d_txt} | {status} |")
 seeds = '\n'.join(['| seed | what it needs to manifest | detected by (assertion labels) | outcome |', '|---|---|---|---|'] + rows)
 res = {}
